@@ -268,6 +268,9 @@ def run(run):
     if np.abs(R0 - want).max() > 1e-3 or Cf.shape != Cb.shape or not np.array_equal(Cf, np.asarray(Cb, float)):
         run.violation("reconstructor:stale-geometry-after-rebuild", dict(max_dev=float(np.abs(R0 - want).max()),
                       matrix_differs_from_fresh_object=bool(Cf.shape != Cb.shape or not np.array_equal(Cf, np.asarray(Cb, float)))), dict(kind="rebuild"))
+    # ---- the object's life cycle (spec/CovProtocol.tla): attribute assignments, worker counts, builds and reconstructors in any order
+    from harness import protocol
+    run.aux["life_cycle_histories"] = protocol.check_cov(run, sc, rng, 250 if quick else 2500)
     run.traces += n_sing + 4
     run.aux.update(integer_cases=len(trace), singular_cases=n_sing, end_to_end=e2e)
     run.bounds = dict(gen_cfg="Tomo_gen.cfg", cases=len(cases), n_onaxis=1, off_axis_slopes=[2, 4])
